@@ -267,6 +267,8 @@ func Run(r *mc.Run) {
 			}
 		}
 	}
+	names = append(names, gen.AuditStrings(gen.Nameish, 6)...) // alphabet audit: whole architecture names a change introduced
+	names = append(names, "gnueabihf-linux-arm", "gnueabi-linux-arm", "gnux32-linux-amd64", "uclibc-linux-armel", "armhf", "armel", "x32", "arm64", "riscv64", "hurd-amd64")
 	names = append(names, "a-b-c-d", "gnu-linux-amd64-x", "", "-", "a-", "-a", "a--b", "--", "any-", "-any", "all-all", "all-amd64", "gnu-all-all", "é", "i386", "armhf", "hurd-i386", "gnueabihf-linux-arm")
 	// every architecture name also inside a dependency: as a bracket-list entry (alone, negated, first and last of
 	// several) and as a qualifier - the list parser and the qualifier parser have their own paths to the name parser
